@@ -74,6 +74,19 @@ fn all_tokens() -> Vec<&'static str> {
 /// Bytes -> text. `mode` even: token mode (each byte selects a token, spaces
 /// and plain words over-represented); odd: the bytes as (lossy) UTF-8.
 pub fn text(mode: u8, bytes: &[u8]) -> String {
+    let mut s = text_uncapped(mode, bytes);
+    // keep the oracles' quadratic searches cheap: at most ~600 bytes
+    if s.len() > 600 {
+        let mut cut = 600;
+        while !s.is_char_boundary(cut) {
+            cut -= 1;
+        }
+        s.truncate(cut);
+    }
+    s
+}
+
+fn text_uncapped(mode: u8, bytes: &[u8]) -> String {
     if mode & 1 == 1 {
         return String::from_utf8_lossy(bytes).into_owned();
     }
